@@ -7,7 +7,41 @@ def g(x):
     return '%.6g' % x
 
 
+def gen_feedstub(rng):
+    """two arms joined by a one-segment feed wire; explicit tags in every order (the feed wire owns a pulse only if
+    a neighbour has a smaller tag); per-object distributed loads on every, some or one of the wires; source on a
+    junction pulse"""
+    f = rng.choice([7.0, 14.2, 28.5])
+    lam = 299.8 / f
+    seg = lam / rng.choice([20, 30])
+    n1, n2 = rng.randint(3, 6), rng.randint(3, 6)
+    tags = rng.sample(range(1, 10), 3)
+    a0, a1 = [0.0, -seg * n1, 0.0], [0.0, 0.0, 0.0]
+    b0, b1 = [0.0, 0.0, seg], [0.0, seg * n2 * 0.8, seg * (1 + n2 * 0.6)]
+    ws = [(tags[0], n1, a0, a1), (tags[1], 1, a1, b0), (tags[2], n2, b0, b1)]
+    rng.shuffle(ws)
+    argv = ['-f', g(f)]
+    for t, n, p0, p1 in ws:
+        if rng.random() < 0.3:
+            p0, p1 = p1, p0
+        argv += ['-w', '%d,%d,%s,%s' % (t, n, ','.join(g(x) for x in p0 + p1), g(seg / 40))]
+    arm = tags[0] if rng.random() < 0.5 else tags[2]
+    argv += ['--excitation-pulse=%d,%d' % (rng.choice([1, 2]), arm)]
+    kind = rng.choice(['skin', 'coat', 'both'])
+    who = rng.choice(['all3', 'all3', 'stub', 'two'])
+    sel = tags if who == 'all3' else [tags[1]] if who == 'stub' else [tags[1], rng.choice([tags[0], tags[2]])]
+    for t in sel:
+        if kind in ('skin', 'both'):
+            argv.append('--skin-effect-conductivity=%s,%d' % (rng.choice(['3.5e7', '1e6', '5.8e7']), t))
+        if kind in ('coat', 'both'):
+            argv.append('--insulation-load=%s,%s,%d' % (g(seg / rng.choice([8, 12])), rng.choice(['2.3', '4']), t))
+    argv += ['--theta=0,45,2', '--phi=0,90,2']
+    return argv, dict(kinds=['wire', 'stub1', 'wire'], tagmode='explicit', loads=[], dist='feedstub-' + kind + '-' + who, sources=1)
+
+
 def gen_cmdline(rng, small=True):
+    if rng.random() < 0.12:
+        return gen_feedstub(rng)
     f = rng.choice([3.5, 7.0, 7.15, 14.2, 21.3, 28.5])
     lam = 299.8 / f
     seg = lam / rng.choice([15, 20, 30])
@@ -30,7 +64,9 @@ def gen_cmdline(rng, small=True):
             t = tags_pool[i]
         tp = '%d,' % t if t is not None else ''
         if kind == 'wire':
-            n = rng.randint(2, 6)
+            # one-segment wires too (not as the first object): between two wires such a wire carries current but may own
+            # no pulse (junction pulses belong to the later-tagged object); isolated it has no pulse at all
+            n = 1 if (i > 0 and rng.random() < 0.25) else rng.randint(2 if i else 3, 6)
             if i == 0 and ground and rng.random() < 0.6:
                 p0 = [0.0, 0.0, 0.0]
                 p1 = [0.0, 0.0, seg * n]
@@ -60,6 +96,14 @@ def gen_cmdline(rng, small=True):
                                                           g(seg), g(seg), g(seg * rng.choice([1, 1.5])), g(seg))]
             objs.append(('helix', t, n))
         meta['kinds'].append(kind)
+    if rng.random() < 0.2:
+        # an isolated one-segment stub far from everything: a geo object without any pulse
+        t = (max(tags_pool) + 1 + len(objs)) if tagmode in ('explicit', 'sparse') else None
+        tp = '%d,' % t if t is not None else ''
+        z = base_z + seg
+        argv += ['-w', '%s1,%s,%s,%s,%s,%s,%s,%s' % (tp, g(40 * seg), g(35 * seg), g(z), g(41 * seg), g(35 * seg), g(z), g(seg / 50))]
+        objs.append(('wire', t, 1))
+        meta['kinds'].append('stub')
     meta['tagmode'] = tagmode
     # which tags exist after compute_tags (arcs first, then helix, then wires for automatic tags)
     order = [o for o in objs if o[0] == 'arc'] + [o for o in objs if o[0] == 'helix'] + [o for o in objs if o[0] == 'wire']
